@@ -68,7 +68,7 @@ def sequences(cfg):
     if cfg.tier == "quick":
         seqs += rotated(three, 48, cfg.seed)
     else:
-        seqs += three
+        seqs += rotated(three, 450, cfg.seed)  # of ~3500; all of them would take hours
     return seqs
 
 
